@@ -36,7 +36,8 @@ F = [
       witness={'C10': 'witnesses/KF-RECINNER-ONEOF.json'}),
  dict(id='KF-CANDSHARED', family='candidate_shared', properties=RUNP + ['C19'],
       kinds=['deadlock', 'cancel_hangs', 'bad_arg_exception_instance', 'never_node_ran', 'value_instead_of_error', 'wrong_error',
-             'unexpected_args', 'missing_execution', 'wrong_value', 'schedule_dependent_outcome', 'exception_saved'],
+             'unexpected_args', 'missing_execution', 'wrong_value', 'schedule_dependent_outcome', 'exception_saved',
+             'none_placeholder_arg', 'error_instead_of_value'],
       mechanism='a one-of candidate that is also consumed directly by another node: candidates are filtered out of every sub-pipeline except their '
                 'own one-of (manager.py _filter_node), so the direct consumer never becomes ready and the run hangs; when the candidate is reached '
                 'through its one-of first, its contained failure is delivered to the direct consumer',
@@ -66,6 +67,7 @@ F = [
 for f in F:
     f['status'] = 'open'
 FIXED = [
+ 'fixed: property=C02 7b7a1b7 hang when a node needed outside a one-of had failed inside a one-of branch and the outside sub-pipeline had no task of its own for it (witnesses/D30.json); also C05 C09',
  'fixed: property=C10 17020fc the early exit of a failed one-of candidate cancelled node executions other sub-pipelines were waiting for: None delivered as a value (witnesses/D28.json); also C03 C05',
  'fixed: property=C11 fd8858b with a suspending artifact store a recurrent subgraph was iterated again after exhaustion by a late task of its destination (witnesses/D29.json)',
  'fixed: property=C02 87ebcb3 hang when a required node raises an exception whose instances are falsy (witnesses/D27.json); also C05',
